@@ -545,3 +545,44 @@ func hasNaN(s *Shape, v *Val) bool {
 	}
 	return false
 }
+
+// ArenaCount counts the custom values of v whose Encode returns a window into the shared arena
+// (total, and those in map-key position).
+func ArenaCount(s *Shape, v *Val) (total, asKey int) { return arenaCount(s, v, false) }
+
+func arenaCount(s *Shape, v *Val, key bool) (total, asKey int) {
+	if v.Nil {
+		return
+	}
+	add := func(c *Shape, cv *Val, k bool) {
+		a, b := arenaCount(c, cv, k)
+		total, asKey = total+a, asKey+b
+	}
+	switch s.Kind {
+	case Custom:
+		if s.Codec.Arena {
+			total = 1
+			if key {
+				asKey = 1
+			}
+		}
+	case Array, Slice:
+		for _, e := range v.L {
+			add(s.Elem, e, false)
+		}
+	case Map:
+		for i := 0; i+1 < len(v.L); i += 2 {
+			add(s.Key, v.L[i], true)
+			add(s.Elem, v.L[i+1], false)
+		}
+	case Struct:
+		for i, f := range s.Fields {
+			add(f.S, v.L[i], key)
+		}
+	case Ptr:
+		add(s.Elem, v.L[0], false)
+	case Iface:
+		add((*s.Impls)[v.Impl], v.L[0], false)
+	}
+	return
+}
